@@ -226,7 +226,26 @@ static void fam_fpow(unsigned long mmax)
 				}
 			}
 		}
-		R->sample(cid, "exponents of T-2..T+1 bits on a full table (T=TMCG_MAX_FPOWM_T)");
+		// fpowm_ui with exponents over the whole unsigned long range (2^k-1, 2^k, 2^k+1 for k = 0..63, ULONG_MAX)
+		for (unsigned mi = 0; mi < 3; mi++)
+		{
+			mpz_set_ui(m, mods[mi]);
+			mpz_set_ui(b, 3 + mi);
+			tmcg_mpz_fpowm_precompute(tab, b, m, TMCG_MAX_FPOWM_T);
+			for (unsigned k = 0; k < 64; k++)
+				for (int d = -1; d <= 1; d++)
+				{
+					unsigned long ex = (1UL << k) + (unsigned long)d;
+					if (k == 0 && d < 0) ex = ~0UL;
+					bool threw = false;
+					try { tmcg_mpz_fpowm_ui(tab, r, b, ex, m); } catch (std::exception &x) { threw = true; }
+					mpz_powm_ui(want, b, ex, m);
+					R->ok();
+					if (threw || mpz_cmp(r, want))
+						R->viol("fpow/fpowm_ui/large-exponent", "m=" + str(mods[mi]) + " b=" + zs(b) + " e=" + str(ex) + " got=" + (threw ? "exception" : zs(r)) + " want=" + zs(want), cid);
+				}
+		}
+		R->sample(cid, "exponents of T-2..T+1 bits on a full table (T=TMCG_MAX_FPOWM_T); fpowm_ui over the whole unsigned long range");
 	}
 	mpz_clear(m), mpz_clear(b), mpz_clear(e), mpz_clear(r), mpz_clear(want), mpz_clear(other);
 	tmcg_mpz_fpowm_done(tab);
